@@ -148,3 +148,644 @@ pub fn dump_derived(tera: &Tera) -> Vec<String> {
 pub fn compare(a: &Value, b: &Value) -> (std::cmp::Ordering, Option<std::cmp::Ordering>, bool) {
     (a.cmp(b), a.partial_cmp(b), a == b)
 }
+
+/// One lexer token in structured form (for the lexer/whitespace-filter correspondence, C06/C08/C12):
+/// `kind` is the `Debug` name of the token (`CONTENT`, `RAW_CONTENT`, `VARIABLE_START`, …), `text`
+/// the payload of text-carrying tokens (content, raw content, ident, string — unescaped — and the
+/// source lexeme of a float), `flags` the `-` markers in declaration order, `int` the value of an
+/// integer token, `boolean` that of a bool token.
+pub struct VerifToken {
+    pub kind: String,
+    pub text: Option<String>,
+    pub flags: Vec<bool>,
+    pub int: Option<i64>,
+    pub boolean: Option<bool>,
+    pub span: crate::Span,
+}
+
+/// Every (token, span) of `src` as a `VerifToken`, or `(message, span)` of the lexer's syntax error,
+/// before (`filtered = false`) or after the whitespace filter
+pub fn tokens_structured(
+    src: &str,
+    delimiters: Delimiters,
+    filtered: bool,
+) -> Vec<Result<VerifToken, (String, crate::Span)>> {
+    use crate::parsing::lexer::Token;
+    let map = |r: Result<(Token<'_>, crate::Span), crate::Error>| match r {
+        Ok((t, span)) => {
+            let dbg = format!("{t:?}");
+            let kind = dbg.split('(').next().unwrap_or("").to_string();
+            let (text, flags, int, boolean) = match &t {
+                Token::Content(s) => (Some(s.to_string()), vec![], None, None),
+                Token::RawContent(a, s, b) => (Some(s.to_string()), vec![*a, *b], None, None),
+                Token::VariableStart(w)
+                | Token::VariableEnd(w)
+                | Token::TagStart(w)
+                | Token::TagEnd(w) => (None, vec![*w], None, None),
+                Token::Comment(a, b) => (None, vec![*a, *b], None, None),
+                Token::Ident(s) => (Some(s.to_string()), vec![], None, None),
+                Token::Str(s) => (Some(s.to_string()), vec![], None, None),
+                Token::String(s) => (Some(s.clone()), vec![], None, None),
+                Token::Integer(i) => (None, vec![], Some(*i), None),
+                Token::Float(_) => (src.get(span.range.clone()).map(|s| s.to_string()), vec![], None, None),
+                Token::Bool(b) => (None, vec![], None, Some(*b)),
+                _ => (None, vec![], None, None),
+            };
+            Ok(VerifToken { kind, text, flags, int, boolean, span })
+        }
+        Err(e) => match &e.kind {
+            crate::ErrorKind::SyntaxError(r) => Err((r.message().to_string(), r.span().clone())),
+            other => Err((format!("{other:?}"), crate::Span::default())),
+        },
+    };
+    if filtered {
+        tokenize(src, delimiters).map(map).collect()
+    } else {
+        verif_basic_tokenize(src, delimiters).map(map).collect()
+    }
+}
+
+// ---------------------------------------------------------------------------------------------
+// C09 / C07: machine-friendly bytecode listings (one token per instruction, no spaces):
+// `Kind:arg@span;span…` (arg empty for nullary instructions) — names and texts hex encoded, paths as comma separated hex,
+// spread vectors as a string of `t`/`f`, spans as `line:col-line:col(start..end)`.
+
+fn bc_hex(s: &str) -> String {
+    let mut out = String::with_capacity(s.len() * 2);
+    for b in s.bytes() {
+        out.push_str(&format!("{b:02x}"));
+    }
+    out
+}
+
+fn bc_unhex(s: &str) -> Option<String> {
+    if s.len() % 2 != 0 {
+        return None;
+    }
+    let mut bytes = Vec::with_capacity(s.len() / 2);
+    for i in (0..s.len()).step_by(2) {
+        bytes.push(u8::from_str_radix(s.get(i..i + 2)?, 16).ok()?);
+    }
+    String::from_utf8(bytes).ok()
+}
+
+fn bc_span(s: &crate::Span) -> String {
+    format!(
+        "{}:{}-{}:{}({}..{})",
+        s.start_line, s.start_col, s.end_line, s.end_col, s.range.start, s.range.end
+    )
+}
+
+fn bc_instr_wire(instr: &crate::parsing::Instruction, spans: &[crate::Span]) -> String {
+    use crate::parsing::Instruction as I;
+    let tf = |v: &Vec<bool>| v.iter().map(|b| if *b { 't' } else { 'f' }).collect::<String>();
+    let path = |p: &Vec<String>| p.iter().map(|s| bc_hex(s)).collect::<Vec<_>>().join(",");
+    let b = |x: &bool| if *x { "t".to_string() } else { "f".to_string() };
+    let head = match instr {
+        I::LoadConst(v) => format!("LoadConst:{}", bc_hex(&format!("{v:?}"))),
+        I::LoadName(s) => format!("LoadName:{}", bc_hex(s)),
+        I::LoadAttr(s) => format!("LoadAttr:{}", bc_hex(s)),
+        I::LoadAttrOpt(s) => format!("LoadAttrOpt:{}", bc_hex(s)),
+        I::BinarySubscript => "BinarySubscript:".into(),
+        I::BinarySubscriptOpt => "BinarySubscriptOpt:".into(),
+        I::Slice => "Slice:".into(),
+        I::SliceOpt => "SliceOpt:".into(),
+        I::WriteText(s) => format!("WriteText:{}", bc_hex(s)),
+        I::WriteTop => "WriteTop:".into(),
+        I::Set(s) => format!("Set:{}", bc_hex(s)),
+        I::SetGlobal(s) => format!("SetGlobal:{}", bc_hex(s)),
+        I::Include(s) => format!("Include:{}", bc_hex(s)),
+        I::BuildMap(n) => format!("BuildMap:{n}"),
+        I::BuildList(n) => format!("BuildList:{n}"),
+        I::BuildMapWithSpreads(v) => format!("BuildMapWithSpreads:{}", tf(v)),
+        I::BuildListWithSpreads(v) => format!("BuildListWithSpreads:{}", tf(v)),
+        I::CallFunction(s) => format!("CallFunction:{}", bc_hex(s)),
+        I::RenderInlineComponent(s) => format!("RenderInlineComponent:{}", bc_hex(s)),
+        I::RenderBodyComponent(s) => format!("RenderBodyComponent:{}", bc_hex(s)),
+        I::ApplyFilter(s) => format!("ApplyFilter:{}", bc_hex(s)),
+        I::RunTest(s) => format!("RunTest:{}", bc_hex(s)),
+        I::RenderBlock(s) => format!("RenderBlock:{}", bc_hex(s)),
+        I::Jump(t) => format!("Jump:{t}"),
+        I::PopJumpIfFalse(t) => format!("PopJumpIfFalse:{t}"),
+        I::JumpIfFalseOrPop(t) => format!("JumpIfFalseOrPop:{t}"),
+        I::JumpIfTrueOrPop(t) => format!("JumpIfTrueOrPop:{t}"),
+        I::Capture => "Capture:".into(),
+        I::EndCapture => "EndCapture:".into(),
+        I::StartIterate(kv) => format!("StartIterate:{}", b(kv)),
+        I::StartIterateComprehension(kv) => format!("StartIterateComprehension:{}", b(kv)),
+        I::Iterate(t) => format!("Iterate:{t}"),
+        I::StoreLocal(s) => format!("StoreLocal:{}", bc_hex(s)),
+        I::StoreDidNotIterate => "StoreDidNotIterate:".into(),
+        I::Break => "Break:".into(),
+        I::PopLoop => "PopLoop:".into(),
+        I::AppendToList => "AppendToList:".into(),
+        I::Mul => "Mul:".into(),
+        I::Div => "Div:".into(),
+        I::FloorDiv => "FloorDiv:".into(),
+        I::Mod => "Mod:".into(),
+        I::Plus => "Plus:".into(),
+        I::Minus => "Minus:".into(),
+        I::Power => "Power:".into(),
+        I::LessThan => "LessThan:".into(),
+        I::GreaterThan => "GreaterThan:".into(),
+        I::LessThanOrEqual => "LessThanOrEqual:".into(),
+        I::GreaterThanOrEqual => "GreaterThanOrEqual:".into(),
+        I::Equal => "Equal:".into(),
+        I::NotEqual => "NotEqual:".into(),
+        I::StrConcat => "StrConcat:".into(),
+        I::In => "In:".into(),
+        I::Not => "Not:".into(),
+        I::Negative => "Negative:".into(),
+        I::LoadPath(p) => format!("LoadPath:{}", path(p)),
+        I::WritePath(p) => format!("WritePath:{}", path(p)),
+    };
+    let spans: Vec<String> = spans.iter().map(bc_span).collect();
+    format!("{head}@{}", spans.join(";"))
+}
+
+fn bc_chunk_wire(c: &Chunk) -> Vec<String> {
+    (0..c.len())
+        .filter_map(|i| c.get(i))
+        .map(|(instr, spans)| bc_instr_wire(instr, spans))
+        .collect()
+}
+
+/// Wire listing of every chunk `Template::new` compiles from `src` (`main`, `block:<name>` sorted,
+/// `component:<name>` sorted), BEFORE the optimisation pass
+pub fn raw_chunks_wire(
+    name: &str,
+    src: &str,
+    delimiters: Delimiters,
+) -> Result<Vec<(String, Vec<String>)>, crate::Error> {
+    let out = Parser::new(name, src, delimiters).parse()?;
+    let mut compiler = Compiler::new(name);
+    compiler.compile(out.nodes);
+    let mut res = vec![("main".to_string(), bc_chunk_wire(&compiler.chunk))];
+    let mut blocks: Vec<_> = compiler.blocks.iter().collect();
+    blocks.sort_by(|a, b| a.0.cmp(b.0));
+    for (n, c) in blocks {
+        res.push((format!("block:{n}"), bc_chunk_wire(c)));
+    }
+    let mut comps: Vec<(String, Vec<String>)> = Vec::new();
+    for def in out.component_definitions {
+        let mut cc = Compiler::new(name);
+        cc.compile(def.body.clone());
+        comps.push((format!("component:{}", def.name), bc_chunk_wire(&cc.chunk)));
+    }
+    comps.sort();
+    res.extend(comps);
+    Ok(res)
+}
+
+/// Wire listing of the chunks of template `name` as stored in `tera` (after the optimisation
+/// pass unless `set_skip_optimize(true)` was in force when it was added); same naming and order
+/// as `raw_chunks_wire`
+pub fn stored_chunks_wire(tera: &Tera, name: &str) -> Option<Vec<(String, Vec<String>)>> {
+    let tpl = tera.templates.get(name)?;
+    let mut out = vec![("main".to_string(), bc_chunk_wire(&tpl.chunk))];
+    let mut blocks: Vec<_> = tpl.blocks.iter().collect();
+    blocks.sort_by(|a, b| a.0.cmp(b.0));
+    for (n, c) in blocks {
+        out.push((format!("block:{n}"), bc_chunk_wire(c)));
+    }
+    let mut comps: Vec<_> = tpl.components.iter().collect();
+    comps.sort_by(|a, b| a.0.cmp(b.0));
+    for (n, (_, c)) in comps {
+        out.push((format!("component:{n}"), bc_chunk_wire(c)));
+    }
+    Some(out)
+}
+
+/// Names recorded in the call tables of template `name` (what `validate_template_references`
+/// looks at): (kind, sorted names) for kind in filter, test, function, include, component
+pub fn call_tables(tera: &Tera, name: &str) -> Option<Vec<(String, Vec<String>)>> {
+    let tpl = tera.templates.get(name)?;
+    let sorted = |m: &crate::HashMap<String, Vec<crate::Span>>| {
+        let mut v: Vec<String> = m.keys().cloned().collect();
+        v.sort();
+        v
+    };
+    Some(vec![
+        ("filter".to_string(), sorted(&tpl.filter_calls)),
+        ("test".to_string(), sorted(&tpl.test_calls)),
+        ("function".to_string(), sorted(&tpl.function_calls)),
+        ("include".to_string(), sorted(&tpl.include_calls)),
+        ("component".to_string(), sorted(&tpl.component_calls)),
+    ])
+}
+
+/// Run the real `Chunk::optimize` on a synthetic instruction list given in the wire form
+/// (subset: LoadName, LoadAttr, LoadAttrOpt, WriteTop, WriteText, Break, PopLoop, the four jumps,
+/// Iterate, LoadPath, WritePath; each with zero or one span, written `@` or `@<anything>` — a
+/// synthetic span numbered by position is attached). Returns the wire listing after the pass.
+pub fn optimize_wire(code: &[String]) -> Result<Vec<String>, String> {
+    use crate::parsing::Instruction as I;
+    let mut chunk = Chunk::new("synthetic");
+    for (pos, tok) in code.iter().enumerate() {
+        let (head, span_txt) = tok.split_once('@').ok_or_else(|| format!("no @ in {tok}"))?;
+        let (kind, arg) = head.split_once(':').unwrap_or((head, ""));
+        let name = || bc_unhex(arg).ok_or_else(|| format!("bad hex in {tok}"));
+        let num = || arg.parse::<usize>().map_err(|_| format!("bad number in {tok}"));
+        let path = || -> Result<Vec<String>, String> {
+            if arg.is_empty() {
+                return Ok(Vec::new());
+            }
+            arg.split(',').map(|h| bc_unhex(h).ok_or_else(|| format!("bad hex in {tok}"))).collect()
+        };
+        let instr = match kind {
+            "LoadName" => I::LoadName(name()?),
+            "LoadAttr" => I::LoadAttr(name()?),
+            "LoadAttrOpt" => I::LoadAttrOpt(name()?),
+            "WriteText" => I::WriteText(name()?),
+            "WriteTop" => I::WriteTop,
+            "Break" => I::Break,
+            "PopLoop" => I::PopLoop,
+            "Jump" => I::Jump(num()?),
+            "PopJumpIfFalse" => I::PopJumpIfFalse(num()?),
+            "JumpIfFalseOrPop" => I::JumpIfFalseOrPop(num()?),
+            "JumpIfTrueOrPop" => I::JumpIfTrueOrPop(num()?),
+            "Iterate" => I::Iterate(num()?),
+            "LoadPath" => I::LoadPath(path()?),
+            "WritePath" => I::WritePath(path()?),
+            other => return Err(format!("unsupported synthetic instruction {other}")),
+        };
+        let span = if span_txt.is_empty() {
+            None
+        } else {
+            Some(crate::Span {
+                start_line: 1,
+                start_col: pos,
+                end_line: 1,
+                end_col: pos + 1,
+                range: pos..pos + 1,
+            })
+        };
+        chunk.add(instr, span);
+    }
+    chunk.optimize();
+    Ok(bc_chunk_wire(&chunk))
+}
+
+// ---------------------------------------------------------------------------------------------
+// C02 (and users of the shared Lean AST): the parser's AST in the prefix-coded wire form read by
+// /verif/lean/TeraModel/Model/AstWire.lean (grammar in the header of that file); constants use
+// the value wire syntax of /verif/harness/src/wire.rs `encode`; in-tag tokens in the wire form of
+// /verif/lean/TeraModel/Model/Tok.lean.
+
+fn aw_hex(s: &str) -> String {
+    let mut out = String::with_capacity(s.len() * 2);
+    for b in s.bytes() {
+        out.push_str(&format!("{b:02x}"));
+    }
+    out
+}
+
+fn aw_value(v: &Value, out: &mut String) {
+    use crate::value::ValueKind;
+    match v.kind() {
+        ValueKind::Undefined => out.push('U'),
+        ValueKind::None => out.push('N'),
+        ValueKind::Bool => out.push_str(if v.as_bool().unwrap() { "B1" } else { "B0" }),
+        ValueKind::U64 => out.push_str(&format!("u64:{}", v.as_u128().unwrap())),
+        ValueKind::I64 => out.push_str(&format!("i64:{}", v.as_i128().unwrap())),
+        ValueKind::U128 => out.push_str(&format!("u128:{}", v.as_u128().unwrap())),
+        ValueKind::I128 => out.push_str(&format!("i128:{}", v.as_i128().unwrap())),
+        ValueKind::F64 => {
+            let f = v.as_f64().unwrap();
+            let bits = if f.is_nan() { 0x7ff8000000000000 } else { f.to_bits() };
+            out.push_str(&format!("f:{bits:016x}"))
+        }
+        ValueKind::String => {
+            out.push_str(if v.is_safe() { "S:" } else { "s:" });
+            out.push_str(&aw_hex(v.as_str().unwrap()));
+        }
+        ValueKind::Bytes => {
+            out.push_str("y:");
+            for b in v.as_bytes().unwrap() {
+                out.push_str(&format!("{b:02x}"));
+            }
+        }
+        ValueKind::Array => {
+            let a = v.as_array().unwrap();
+            out.push_str(&format!("A{}", a.len()));
+            for x in a {
+                out.push(' ');
+                aw_value(x, out);
+            }
+        }
+        ValueKind::Map => {
+            let m = v.as_map().unwrap();
+            let mut es: Vec<_> = m.iter().collect();
+            es.sort_by(|a, b| a.0.cmp(b.0));
+            out.push_str(&format!("M{}", es.len()));
+            for (k, x) in es {
+                out.push(' ');
+                aw_value(&k.as_value(), out);
+                out.push(' ');
+                aw_value(x, out);
+            }
+        }
+        #[allow(unreachable_patterns)]
+        _ => out.push('?'),
+    }
+}
+
+fn aw_flag(b: bool) -> char {
+    if b { '1' } else { '0' }
+}
+
+fn aw_name(s: &str, out: &mut String) {
+    out.push_str(" n:");
+    out.push_str(&aw_hex(s));
+}
+
+fn aw_opt_name(s: &Option<String>, out: &mut String) {
+    match s {
+        None => out.push_str(" O0"),
+        Some(s) => {
+            out.push_str(" O1");
+            aw_name(s, out)
+        }
+    }
+}
+
+fn aw_kwargs(k: &crate::HashMap<String, crate::parsing::ast::Expression>, out: &mut String) {
+    let mut names: Vec<&String> = k.keys().collect();
+    names.sort();
+    out.push_str(&format!(" K{}", names.len()));
+    for n in names {
+        aw_name(n, out);
+        aw_expr(&k[n], out);
+    }
+}
+
+fn aw_opt_expr(e: &Option<crate::parsing::ast::Expression>, out: &mut String) {
+    match e {
+        None => out.push_str(" O0"),
+        Some(e) => {
+            out.push_str(" O1");
+            aw_expr(e, out)
+        }
+    }
+}
+
+fn aw_map_entries(es: &[crate::parsing::ast::MapEntry], out: &mut String) {
+    use crate::parsing::ast::MapEntry;
+    out.push_str(&format!(" Map{}", es.len()));
+    for e in es {
+        match e {
+            MapEntry::KeyValue { key, value } => {
+                out.push_str(" KV ");
+                aw_value(&key.as_value(), out);
+                aw_expr(value, out);
+            }
+            MapEntry::Spread(e) => {
+                out.push_str(" Sp");
+                aw_expr(e, out);
+            }
+        }
+    }
+}
+
+/// every piece starts with a space
+fn aw_expr(e: &crate::parsing::ast::Expression, out: &mut String) {
+    use crate::parsing::ast::{ArrayEntry, Expression as E, UnaryOperator};
+    match e {
+        E::Const(c) => {
+            out.push_str(" C ");
+            aw_value(c.node(), out);
+        }
+        E::Array(a) => {
+            out.push_str(&format!(" Arr{}", a.items.len()));
+            for it in &a.items {
+                match it {
+                    ArrayEntry::Item(e) => {
+                        out.push_str(" I");
+                        aw_expr(e, out)
+                    }
+                    ArrayEntry::Spread(e) => {
+                        out.push_str(" Sp");
+                        aw_expr(e, out)
+                    }
+                }
+            }
+        }
+        E::Map(m) => aw_map_entries(&m.entries, out),
+        E::Var(v) => {
+            out.push_str(" V:");
+            out.push_str(&aw_hex(&v.name));
+        }
+        E::GetAttr(g) => {
+            out.push_str(&format!(" GA{}:{}", aw_flag(g.optional), aw_hex(&g.name)));
+            aw_expr(&g.expr, out);
+        }
+        E::GetItem(g) => {
+            out.push_str(&format!(" GI{}", aw_flag(g.optional)));
+            aw_expr(&g.expr, out);
+            aw_expr(&g.sub_expr, out);
+        }
+        E::Slice(s) => {
+            out.push_str(&format!(" SL{}", aw_flag(s.optional)));
+            aw_expr(&s.expr, out);
+            aw_opt_expr(&s.start, out);
+            aw_opt_expr(&s.end, out);
+            aw_opt_expr(&s.step, out);
+        }
+        E::Filter(f) => {
+            out.push_str(&format!(" Fil:{}", aw_hex(&f.name)));
+            aw_expr(&f.expr, out);
+            aw_kwargs(&f.kwargs, out);
+        }
+        E::Test(f) => {
+            out.push_str(&format!(" Tst:{}", aw_hex(&f.name)));
+            aw_expr(&f.expr, out);
+            aw_kwargs(&f.kwargs, out);
+        }
+        E::Ternary(t) => {
+            out.push_str(" Ter");
+            aw_expr(&t.expr, out);
+            aw_expr(&t.true_expr, out);
+            aw_expr(&t.false_expr, out);
+        }
+        E::ListComprehension(l) => {
+            out.push_str(" LC");
+            aw_expr(&l.expr, out);
+            aw_opt_name(&l.key, out);
+            aw_name(&l.value, out);
+            aw_expr(&l.target, out);
+            aw_opt_expr(&l.condition, out);
+        }
+        E::ComponentCall(c) => {
+            out.push_str(&format!(" CC{}:{}", aw_flag(c.self_closing), aw_hex(&c.name)));
+            aw_map_entries(&c.kwargs, out);
+            aw_nodes(&c.body, out);
+        }
+        E::FunctionCall(f) => {
+            out.push_str(&format!(" Fn:{}", aw_hex(&f.name)));
+            aw_kwargs(&f.kwargs, out);
+        }
+        E::UnaryOperation(u) => {
+            out.push_str(match u.op {
+                UnaryOperator::Not => " Not",
+                UnaryOperator::Minus => " Neg",
+            });
+            aw_expr(&u.expr, out);
+        }
+        E::BinaryOperation(b) => {
+            out.push_str(&format!(" Bin:{:?}", b.op));
+            aw_expr(&b.left, out);
+            aw_expr(&b.right, out);
+        }
+    }
+}
+
+fn aw_nodes(ns: &[Node], out: &mut String) {
+    out.push_str(&format!(" Ns{}", ns.len()));
+    for n in ns {
+        match n {
+            Node::Content(s) => {
+                out.push_str(" Content:");
+                out.push_str(&aw_hex(s));
+            }
+            Node::Expression(e) => {
+                out.push_str(" Expr");
+                aw_expr(e, out);
+            }
+            Node::Set(s) => {
+                out.push_str(&format!(" Set{}:{}", aw_flag(s.global), aw_hex(&s.name)));
+                aw_expr(&s.value, out);
+            }
+            Node::BlockSet(s) => {
+                out.push_str(&format!(
+                    " BSet{}:{} Fs{}",
+                    aw_flag(s.global),
+                    aw_hex(&s.name),
+                    s.filters.len()
+                ));
+                for f in &s.filters {
+                    aw_expr(f, out);
+                }
+                aw_nodes(&s.body, out);
+            }
+            Node::Include(i) => {
+                out.push_str(" Inc:");
+                out.push_str(&aw_hex(i.name.node()));
+            }
+            Node::Block(b) => {
+                out.push_str(" Blk:");
+                out.push_str(&aw_hex(b.name.node()));
+                aw_nodes(&b.body, out);
+            }
+            Node::ForLoop(f) => {
+                out.push_str(" For");
+                aw_opt_name(&f.key, out);
+                aw_name(&f.value, out);
+                aw_expr(&f.target, out);
+                aw_nodes(&f.body, out);
+                aw_nodes(&f.else_body, out);
+            }
+            Node::Break => out.push_str(" Brk"),
+            Node::Continue => out.push_str(" Cnt"),
+            Node::If(i) => {
+                out.push_str(" If");
+                aw_expr(&i.expr, out);
+                aw_nodes(&i.body, out);
+                aw_nodes(&i.false_body, out);
+            }
+            Node::FilterSection(f) => {
+                out.push_str(" FS:");
+                out.push_str(&aw_hex(f.name.node()));
+                aw_kwargs(&f.kwargs, out);
+                aw_nodes(&f.body, out);
+            }
+        }
+    }
+}
+
+fn aw_components(cs: &[crate::parsing::ast::ComponentDefinition], out: &mut String) {
+    out.push_str(&format!(" Cs{}", cs.len()));
+    for c in cs {
+        out.push_str(&format!(" Comp:{} Args{}", aw_hex(&c.name), c.kwargs.len()));
+        for (n, a) in &c.kwargs {
+            aw_name(n, out);
+            match a.typ {
+                None => out.push_str(" O0"),
+                Some(t) => out.push_str(&format!(" O1 T:{}", t.as_str())),
+            }
+            match &a.default {
+                None => out.push_str(" O0"),
+                Some(v) => {
+                    out.push_str(" O1 ");
+                    aw_value(v, out)
+                }
+            }
+        }
+        aw_opt_name(&c.rest_param_name, out);
+        out.push_str(&format!(" Meta{}", c.metadata.len()));
+        for (n, v) in &c.metadata {
+            aw_name(n, out);
+            out.push(' ');
+            aw_value(v, out);
+        }
+        aw_nodes(&c.body, out);
+    }
+}
+
+/// The nodes the real parser produces for `src`, in the AST wire form (`Ns<n> node…`)
+pub fn ast_wire(src: &str, delimiters: Delimiters) -> Result<String, crate::Error> {
+    let out = Parser::new("", src, delimiters).parse()?;
+    let mut s = String::new();
+    aw_nodes(&out.nodes, &mut s);
+    Ok(s.trim_start().to_string())
+}
+
+/// The component definitions the real parser extracts from `src` (`Cs<n> component…`)
+pub fn components_wire(src: &str, delimiters: Delimiters) -> Result<String, crate::Error> {
+    let out = Parser::new("", src, delimiters).parse()?;
+    let mut s = String::new();
+    aw_components(&out.component_definitions, &mut s);
+    Ok(s.trim_start().to_string())
+}
+
+/// The whole `ParserOutput` of `src`: `T ostr(parent) nodes components`
+pub fn template_wire(src: &str, delimiters: Delimiters) -> Result<String, crate::Error> {
+    let out = Parser::new("", src, delimiters).parse()?;
+    let mut s = String::from("T");
+    aw_opt_name(&out.parent, &mut s);
+    aw_nodes(&out.nodes, &mut s);
+    aw_components(&out.component_definitions, &mut s);
+    Ok(s)
+}
+
+/// The token stream the parser consumes (after the whitespace filter) in the wire form of
+/// /verif/lean/TeraModel/Model/Tok.lean: one whitespace-free word per token; a lexer error is the
+/// word `ERR` (the iterator ends after it)
+pub fn tokens_wire(src: &str, delimiters: Delimiters) -> Vec<String> {
+    use crate::parsing::lexer::Token;
+    tokenize(src, delimiters)
+        .map(|r| match r {
+            Err(_) => "ERR".to_string(),
+            Ok((t, _)) => match t {
+                Token::Content(s) => format!("content:{}", aw_hex(s)),
+                Token::RawContent(a, s, b) => {
+                    format!("raw{}{}:{}", aw_flag(a), aw_flag(b), aw_hex(s))
+                }
+                Token::VariableStart(w) => format!("vs{}", aw_flag(w)),
+                Token::VariableEnd(w) => format!("ve{}", aw_flag(w)),
+                Token::TagStart(w) => format!("ts{}", aw_flag(w)),
+                Token::TagEnd(w) => format!("te{}", aw_flag(w)),
+                Token::Comment(a, b) => format!("comment{}{}", aw_flag(a), aw_flag(b)),
+                Token::Ident(s) => format!("id:{}", aw_hex(s)),
+                Token::String(s) => format!("str:{}", aw_hex(&s)),
+                Token::Str(s) => format!("str:{}", aw_hex(s)),
+                Token::Integer(i) => format!("int:{i}"),
+                Token::Float(f) => {
+                    let bits = if f.is_nan() { 0x7ff8000000000000 } else { f.to_bits() };
+                    format!("float:{bits:016x}")
+                }
+                Token::Bool(b) => format!("bool{}", aw_flag(b)),
+                other => format!("{other:?}"),
+            },
+        })
+        .collect()
+}
